@@ -32,9 +32,9 @@ def closed_form_case(kind, N, M):
 
     def fn(c):
         shape = (N, M) if M else (N,)
-        x = api.tensor(c, "x", shape, lo=-3, hi=3) if c.mode == "concrete" else api.tensor(c, "x", shape)
-        tgt = api.tensor(c, "target", shape, lo=-1, hi=1) if c.mode == "concrete" else api.tensor(c, "target", shape)
-        a = api.real(c, "a", pos=True, hi=3) if c.mode == "concrete" else api.real(c, "a", pos=True)
+        x = api.tensor(c, "x", shape)
+        tgt = api.tensor(c, "target", shape)
+        a = api.real(c, "a", pos=True)
         with facades.real_torch():
             m = {"entropic_risk": lambda: nn.EntropicRiskMeasure(1.0), "entropic_loss": lambda: nn.EntropicLoss(1.0),
                  "es": lambda: nn.ExpectedShortfall(0.5)}[kind]()
@@ -146,6 +146,9 @@ def default_search_case(kind, N, M):
             c.check("criterion(constant cash)[%d] == criterion(sample) up to modulus*precision" % j,
                     api.le(api.absv(elem(lhs, *idx) - elem(rhs, *idx)), L * prec * 1.001, tol=1e-9))
             c.check("min <= cash <= max [%d]" % j, api.all_(api.ge(cj, api.minv(*ws)), api.le(cj, api.maxv(*ws))))
+            if kind == "isoelastic":
+                # risk-averse: the certainty equivalent (mean sqrt w)^2 does not exceed the mean (Cauchy-Schwarz), up to the search precision
+                c.check("cash <= mean + precision [%d]" % j, api.le(cj, sum(ws[1:], ws[0]) / N + prec * 1.001, tol=1e-9))
             if kind == "negmean":
                 c.check("cash within precision of the mean [%d]" % j, api.le(api.absv(cj - sum(ws[1:], ws[0]) / N), prec * 1.001, tol=1e-9))
 
@@ -180,7 +183,7 @@ def price_case(crit_kind, n_times, clause=False):
         N, T = 2, 3
         env = cm.market(c, N, T, "european", "underlier", cost_sym=False)
         deriv = env["derivative"]
-        a = api.real(c, "a", pos=True, hi=3) if c.mode == "concrete" else api.real(c, "a", pos=True)
+        a = api.real(c, "a", pos=True)
         with facades.real_torch():
             crit = nn.ExpectedShortfall(0.5) if crit_kind == "es" else nn.EntropicRiskMeasure(1.0)
         if crit_kind != "es":
